@@ -47,6 +47,8 @@ type Obs struct {
 	Puts       []PutObs
 	Emits      []EmitObs
 	Syncs      []SyncCall
+	LiveBefore int // index of the epoch whose group the vault held before / after the event (-1: none)
+	LiveAfter  int
 	Now        int64
 	Head       uint64
 }
@@ -223,6 +225,7 @@ func (r *runner) Do(ev Event) Obs {
 	expEmits, expSync := 0, false
 	r.declines0 = atomic.LoadInt64(&w.declines)
 	o.HeadBefore = w.Head()
+	o.LiveBefore = w.liveEpoch()
 	switch ev.Kind {
 	case "start":
 		_ = w.H.Start(ctx)
@@ -405,5 +408,6 @@ func (r *runner) Do(ev Event) Obs {
 	r.nSyncs = len(sc)
 	o.Now = w.Now()
 	o.Head = w.Head()
+	o.LiveAfter = w.liveEpoch()
 	return o
 }
